@@ -2,6 +2,8 @@ import GnpyModel
 import GnpyProofs.Lemmas.ChainNum
 import GnpyProofs.Lemmas.ChainList
 import GnpyProofs.Lemmas.ChainPad
+import GnpyProofs.Lemmas.ChainSplit
+import GnpyProofs.Lemmas.ChainGraph
 /- Property theorems for C08 — auto-design yields a complete line system.
    Model: GnpyModel/Chain.lean (lists of line elements between two endpoints).  Numeric statements over ℝ.
    Helper lemmas: GnpyProofs/Lemmas/ChainNum.lean, ChainList.lean. -/
@@ -150,6 +152,86 @@ theorem connectors_defined (dIn dOut eol : α) (l : List (Elem α)) :
 
 end
 
+/-! ### the graph stays a set of one-in/one-out chains with unchanged reachability -/
+
+section
+variable {α : Type} [Add α] [Sub α] [Mul α] [Div α] [Neg α] [NatCast α] [LT α] [LE α]
+  [DecidableLT α] [DecidableLE α] [Transc α]
+
+/-- **Every line element has exactly one predecessor and one successor** in the graph of a set of chains, as soon as
+the names in its own chain are distinct and no other chain mentions it (for the completed chains that is what
+`names_unique_partial` and the monitor establish). Holds for any set of chains, in particular for
+`chs.map (completeChain …)`. -/
+theorem one_in_one_out (pre post : List (Chain α)) (ch : Chain α) (u : String)
+    (hn : (chainNodes ch).Nodup) (hu : u ∈ ch.line.map Elem.uid)
+    (hother : ∀ c ∈ pre ++ post, u ∉ chainNodes c) :
+    inDeg (toGraph (pre ++ ch :: post)) u = 1 ∧ outDeg (toGraph (pre ++ ch :: post)) u = 1 := by
+  have hpre := deg_zero_of_absent pre u (fun c hc => hother c (by simp [hc]))
+  have hpost := deg_zero_of_absent post u (fun c hc => hother c (by simp [hc]))
+  rw [toGraph_append, toGraph_cons, inDeg_append, inDeg_append, outDeg_append, outDeg_append,
+    hpre.1, hpre.2, hpost.1, hpost.2]
+  have hin := inDeg_pathEdges (chainNodes ch) hn u
+  have hout := outDeg_pathEdges (chainNodes ch) hn u
+  have htail : u ∈ (chainNodes ch).tail := by simp [chainNodes]; exact Or.inl (by simpa using hu)
+  have hdrop : u ∈ (chainNodes ch).dropLast := by
+    have : (chainNodes ch).dropLast = ch.src :: ch.line.map Elem.uid := by
+      simp only [chainNodes]
+      rw [← List.cons_append, List.dropLast_concat]
+    rw [this]; exact List.mem_cons_of_mem _ hu
+  simp only [chainEdges]
+  rw [hin, hout, if_pos htail, if_pos hdrop]
+  exact ⟨rfl, rfl⟩
+
+/-- **Degrees of the endpoints**: a ROADM/transceiver that is not used as a line element has as many outgoing edges
+as chains leave it and as many incoming edges as chains end at it -/
+theorem endpoints_degree (chs : List (Chain α)) (r : String)
+    (hn : ∀ c ∈ chs, (chainNodes c).Nodup) (hr : ∀ c ∈ chs, r ∉ c.line.map Elem.uid) :
+    outDeg (toGraph chs) r = (chs.filter (fun c => c.src == r)).length ∧
+    inDeg (toGraph chs) r = (chs.filter (fun c => c.dst == r)).length := by
+  induction chs with
+  | nil => simp [toGraph, inDeg, outDeg]
+  | cons c rest ih =>
+    have hc := hn c (by simp)
+    have hrc := hr c (by simp)
+    obtain ⟨io, ii⟩ := ih (fun x hx => hn x (by simp [hx])) (fun x hx => hr x (by simp [hx]))
+    have hdrop : (chainNodes c).dropLast = c.src :: c.line.map Elem.uid := by
+      simp only [chainNodes]
+      rw [← List.cons_append, List.dropLast_concat]
+    have hsd : c.src ≠ c.dst := by
+      intro h
+      have := (List.nodup_cons.mp hc).1
+      apply this; simp [h]
+    rw [toGraph_cons, outDeg_append, inDeg_append, io, ii]
+    simp only [chainEdges]
+    rw [outDeg_pathEdges _ hc r, inDeg_pathEdges _ hc r, hdrop]
+    simp only [chainNodes, List.tail_cons, List.mem_cons, List.mem_append, List.filter_cons]
+    constructor
+    · by_cases h : c.src = r
+      · simp [h]; omega
+      · have h' : ¬ r = c.src := fun x => h x.symm
+        simp [h, h', hrc]
+    · by_cases h : c.dst = r
+      · simp [h]; omega
+      · have h' : ¬ r = c.dst := fun x => h x.symm
+        have hrc' : ¬ ∃ a ∈ c.line, a.uid = r := by simpa using hrc
+        simp [h, h', hrc']
+
+/-- every chain is a path of the graph from its source to its destination -/
+theorem chain_is_path (chs : List (Chain α)) (ch : Chain α) (h : ch ∈ chs) :
+    ∀ e ∈ chainEdges ch, e ∈ toGraph chs := by
+  intro e he
+  simp only [toGraph, List.mem_flatMap]
+  exact ⟨ch, h, he⟩
+
+/-- **Reachability is unchanged**: completing the lines (split, amplifier insertion, connector losses, padding) leaves
+the set of ROADM/transceiver pairs that are joined by a chain exactly as it was — and by `chain_is_path` every such
+pair is still joined by a path in the graph of the completed chains. -/
+theorem reachability_unchanged (c : SplitCfg α) (dIn dOut eol padding : α) (chs : List (Chain α)) :
+    endpointPairs (chs.map (completeChain c dIn dOut eol padding)) = endpointPairs chs := by
+  simp [endpointPairs, completeChain, Function.comp_def]
+
+end
+
 /-! ### split_fiber: equal spans with the original length and fibre loss -/
 
 /-- all spans produced from one fibre are fibres of one and the same length, with the original loss coefficient -/
@@ -188,6 +270,39 @@ theorem split_preserves_length_and_loss (c : SplitCfg ℝ) (uid : String) (p : F
         List.sum_replicate]
       rw [← s2]; simp; ring
 
+/-- **… and the original total loss**: fibre attenuation + input attenuation + lumped losses of the spans add up to
+those of the original fibre — `att_in` stays on the first span only and every lumped loss (position strictly inside
+the fibre) lands in exactly one span (repaired `_span_params`; connector losses are per-span attributes and are
+not part of this sum). -/
+theorem split_preserves_total_loss (c : SplitCfg ℝ) (uid : String) (p : FiberP ℝ)
+    (hL : 0 < p.length) (ht : 0 < c.target) (hth : c.target ≤ c.hi)
+    (hf : p.length < ((c.fuel + 1 : Nat) : ℝ) * c.target)
+    (hlumps : ∀ l ∈ p.lumps, 0 ≤ l.1 ∧ l.1 < p.length * milli) :
+    ((splitFiber c uid p).map Elem.body).sum = p.glassLoss + p.attIn + p.lumped := by
+  obtain ⟨s1, s2, _⟩ := calcNewLength_spec c.fuel p.length c.lo c.hi c.target hL ht hth hf
+  simp only [splitFiber]
+  split
+  · simp [Elem.body]
+  · set r := calcNewLength c.fuel p.length c.lo c.hi c.target with hr
+    have hnpos : (0:ℝ) < (r.2 : ℝ) := by exact_mod_cast s1
+    have hlen : 0 ≤ r.1 := by
+      by_contra hneg
+      have : (r.2 : ℝ) * r.1 < 0 := mul_neg_of_pos_of_neg hnpos (not_le.mp hneg)
+      linarith
+    have hmilli : (0:ℝ) ≤ milli := by simp only [milli, Nat.cast_one, Nat.cast_ofNat]; norm_num
+    have hs : 0 ≤ r.1 * milli := mul_nonneg hlen hmilli
+    have hin : ∀ l ∈ p.lumps, 0 ≤ l.1 ∧ l.1 < (r.2 : ℝ) * (r.1 * milli) := by
+      intro l hl
+      have := hlumps l hl
+      rw [← mul_assoc, s2]; exact this
+    simp only [List.map_map, Function.comp_def, Elem.body, FiberP.glassLoss, FiberP.lumped]
+    simp only [spanLumps_lumped]
+    rw [List.sum_map_add, List.sum_map_add]
+    simp only [Nat.cast_zero]
+    rw [sum_first_only _ _ s1, spanLumps_total p.lumps r.2 (r.1 * milli) hs hin]
+    simp only [List.map_const', List.length_range, List.sum_replicate, sumLeft_eq_sum]
+    rw [← s2]; ring
+
 /-! ### add_fiber_padding -/
 
 /-- **Padding is reached.** A run of spliced Fiber/Fused elements whose first and last elements are fibres (the last
@@ -209,7 +324,7 @@ theorem padding_reached (padding : ℝ) (r : List (Elem ℝ)) (u : String) (p : 
         obtain ⟨h1, h2⟩ := hl
         subst h1; subst h2
         simp only [runLoss_eq, List.map_cons, List.map_nil, List.sum_cons, List.sum_nil]
-        simp only [Elem.loss, Elem.ramanGain, FiberP.loss, hnr, Bool.false_eq_true, if_false]
+        simp only [Elem.loss, Elem.ramanGain, FiberP.loss, FiberP.lumped, hnr, Bool.false_eq_true, if_false]
         ring
       | cons y t' =>
         have hl' : (y :: t').getLast? = some (.fiber u p) := by
@@ -227,7 +342,7 @@ theorem padding_reached (padding : ℝ) (r : List (Elem ℝ)) (u : String) (p : 
           simp; ring
         rw [e1, e2]
         simp only [List.map_cons, List.map_append, List.map_nil, List.sum_cons, List.sum_append, List.sum_nil]
-        simp only [Elem.loss, Elem.ramanGain, FiberP.loss, hnr, Bool.false_eq_true, if_false]
+        simp only [Elem.loss, Elem.ramanGain, FiberP.loss, FiberP.lumped, hnr, Bool.false_eq_true, if_false]
         ring
     · simp only [hlt, if_false]
       rw [max_eq_right (not_lt.mp hlt)]
@@ -235,7 +350,7 @@ theorem padding_reached (padding : ℝ) (r : List (Elem ℝ)) (u : String) (p : 
       simp only [runLoss_eq]
       conv_rhs => rw [hsplit]
       simp only [List.map_append, List.map_cons, List.map_nil, List.sum_append, List.sum_cons, List.sum_nil]
-      simp only [Elem.loss, Elem.ramanGain, FiberP.loss, hnr]
+      simp only [Elem.loss, Elem.ramanGain, FiberP.loss, FiberP.lumped, hnr]
   exact ⟨key, by rw [key]; exact le_max_left _ _⟩
 
 /-- after padding, the cached `design_span_loss` of the run's last fibre IS the loss of the run (whatever `att_in` the
@@ -280,17 +395,17 @@ theorem padRun_fused_edge_unpadded_fails_current :
       r1.head?.map Elem.isFused = some true ∧ r2.getLast?.map Elem.isFused = some true ∧
       runLoss (padRun padding r1) = 3 ∧ runLoss (padRun padding r2) = 3 ∧ (3:ℝ) < padding := by
   let f : Elem ℝ := .fiber "f" { length := 10, lossCoef := 0.2, conIn := some 0, conOut := some 0, attIn := 0,
-                                 lumped := 0, raman := false, ramanGain := none, dsl := none }
+                                 lumps := [], raman := false, ramanGain := none, dsl := none }
   refine ⟨10, [.fused "x" 1, f], [f, .fused "x" 1], by simp [Elem.isFused], by simp [Elem.isFused], ?_, ?_, by norm_num⟩
   · have h : runLoss [Elem.fused "x" 1, f] < 10 := by
-      simp only [runLoss_eq]; norm_num [f, Elem.loss, FiberP.loss, Elem.ramanGain]
+      simp only [runLoss_eq]; norm_num [f, Elem.loss, FiberP.loss, FiberP.lumped, sumLeft_eq_sum, Elem.ramanGain]
     simp only [padRun, f, List.getLast?_cons_cons, List.getLast?_singleton, Bool.false_eq_true, if_false]
     rw [if_pos h]
     simp only [runLoss_eq]
-    norm_num [Elem.loss, FiberP.loss, Elem.ramanGain]
+    norm_num [Elem.loss, FiberP.loss, FiberP.lumped, sumLeft_eq_sum, Elem.ramanGain]
   · simp only [padRun, f, List.getLast?_cons_cons, List.getLast?_singleton]
     simp only [runLoss_eq]
-    norm_num [Elem.loss, FiberP.loss, Elem.ramanGain]
+    norm_num [Elem.loss, FiberP.loss, FiberP.lumped, sumLeft_eq_sum, Elem.ramanGain]
 
 /-- padding a padded run again changes nothing (needed for redesign, C17) -/
 theorem padRun_idempotent (padding : ℝ) (r : List (Elem ℝ)) (u : String) (p : FiberP ℝ) (v : String) (q : FiberP ℝ)
@@ -351,8 +466,8 @@ example : (0:ℝ) < 300000 ∧ (0:ℝ) < 90000 ∧ (90000:ℝ) ≤ 150000 ∧ (3
 example : ∃ (r : List (Elem ℝ)) (u : String) (p : FiberP ℝ) (v : String) (q : FiberP ℝ) (t : List (Elem ℝ)),
     r = .fiber v q :: t ∧ r.getLast? = some (.fiber u p) ∧ p.raman = false ∧ runLoss r < 10 := by
   let f : FiberP ℝ := { length := 10, lossCoef := 0.2, conIn := some 0, conOut := some 0, attIn := 1.5,
-                        lumped := 0, raman := false, ramanGain := none, dsl := none }
+                        lumps := [], raman := false, ramanGain := none, dsl := none }
   refine ⟨[.fiber "a" f, .fused "x" 1, .fiber "b" f], "b", f, "a", f, _, rfl, by simp, rfl, ?_⟩
-  simp only [runLoss_eq]; norm_num [f, Elem.loss, FiberP.loss, Elem.ramanGain]
+  simp only [runLoss_eq]; norm_num [f, Elem.loss, FiberP.loss, FiberP.lumped, sumLeft_eq_sum, Elem.ramanGain]
 
 end Gnpy.Chain
